@@ -236,7 +236,7 @@ pub fn run(ctx: &Ctx, rep: &mut Report) {
         prev = m;
     }
     let mut rng = gen::shard_rng(ctx.seed, ctx.shard, 5);
-    // complete 3-man families (quick: a seed-dependent 1/8 slice)
+    // complete 3-man families (quick: all final positions and a seed-dependent 1/8 slice of the others)
     let of = ctx.of as u64;
     let stride = if ctx.thorough() { 1 } else { 8 };
     let off = ctx.seed % stride;
@@ -244,7 +244,11 @@ pub fn run(ctx: &Ctx, rep: &mut Report) {
         let mut n = 0u64;
         three_man(kind, None, |p| {
             n += 1;
-            if n % of == ctx.shard as u64 && (n / of) % stride == off {
+            // every final position of the families at both tiers; of the others a slice at the quick tier
+            if n % of == ctx.shard as u64 && ((n / of) % stride == off || p.legal_moves().is_empty()) {
+                if p.legal_moves().is_empty() {
+                    rep.count("three_man_final_positions", 1);
+                }
                 let q = if n % 2 == 0 { p.clone() } else { p.mirror() };
                 check_position(&q, &ev, &[0, 3, 10, 40], rep);
                 rep.count("three_man_positions", 1);
